@@ -89,3 +89,23 @@ Definition add_us (dt : date) (tod n : Z) : date * Z :=
 
 (* DATEDIFF on datetimes: DateDiff.Eval cuts both arguments to their first ten characters (the date part) *)
 Definition datediff_dt (a : date) (ta : Z) (b : date) (tb : Z) : Z := datediff_go a b.
+
+(* ---------- TIMESTAMPDIFF(MONTH | QUARTER | YEAR): monthsDiff of time_math.go ---------- *)
+(* a moment is (date, second of the day); before/after is the calendar (lexicographic) order, which is the order of
+   instants for valid dates *)
+Definition moment_lt (a : date * Z) (b : date * Z) : bool :=
+  let '((y1, m1, d1), t1) := a in let '((y2, m2, d2), t2) := b in
+  (y1 <? y2) || ((y1 =? y2) && ((m1 <? m2) || ((m1 =? m2) && ((d1 <? d2) || ((d1 =? d2) && (t1 <? t2)))))).
+Definition months_between (before after : date * Z) : Z :=
+  let '((y1, m1, d1), t1) := before in let '((y2, m2, d2), t2) := after in
+  let md := m2 - m1 in
+  let md := if d2 <? d1 then md - 1 else if (d1 =? d2) && (t2 <? t1) then md - 1 else md in
+  (y2 - y1) * 12 + md.
+Definition months_diff (a b : date * Z) : Z :=
+  if moment_lt b a then - months_between b a else months_between a b.
+Definition timestampdiff_months (per : Z) (a b : date * Z) : Z := Z.quot (months_diff a b) per.
+
+(* ---------- CAST('YYYY-MM-DD' AS DATE): types.parseDatetime retries on shorter prefixes that end in a digit ---------- *)
+(* month 1..12, day 1..31 written with two digits: a non-existent day loses its last digit ('2023-02-30' -> '2023-02-3') *)
+Definition cast_date_str (y m d : Z) : date :=
+  if valid_date (y, m, d) then (y, m, d) else (y, m, d / 10).
